@@ -50,7 +50,11 @@ func (x *Exec) evalCall(st *State, call *ast.CallExpr) []Value {
 		}
 	}
 	if callee != nil {
+		x.anchor(st, "before call "+callee.Name(), call.Pos(), 0)
 		return x.callStatic(st, call, callee, recvVal)
+	}
+	if id, ok := fun.(*ast.Ident); ok {
+		x.anchor(st, "before call "+id.Name, call.Pos(), 0)
 	}
 	// call through a function value
 	fv := x.eval(st, call.Fun)
@@ -471,9 +475,14 @@ func (x *Exec) applyContract(st *State, call *ast.CallExpr, key string, c *FuncC
 	st.alloc = na
 	// results
 	var results []Value
+	zeroOff := zeroOffsetResults(c, resultNames(sig))
 	for i := 0; i < sig.Results().Len(); i++ {
 		rt := sig.Results().At(i).Type()
 		rv := x.freshResult(st, rt, fmt.Sprintf("%s_r%d", short, i), allocBefore)
+		if sv, ok := rv.(SliceV); ok && zeroOff[i] {
+			sv.Off = Int(0)
+			rv = sv
+		}
 		results = append(results, rv)
 	}
 	envPost := &SpecEnv{x: x, st: st, preSt: preSt, bind: bind, bindPre: bind, lets: c.Lets, results: results, calleePkg: c.Pkg, bound: map[string]Value{}, resultNames: resultNames(sig), allocBase: &allocBefore}
@@ -615,7 +624,73 @@ func (x *Exec) callFuncValue(st *State, call *ast.CallExpr, f FuncV) []Value {
 		fail("call through non-function at %s", x.pos(call.Pos()))
 	}
 	args := x.evalArgs(st, call.Args)
+	if id, ok := unparen(call.Fun).(*ast.Ident); ok && x.contract != nil && len(x.contract.Calls[id.Name]) > 0 {
+		return x.callCandidates(st, call, f.T, sig, args, x.contract.Calls[id.Name])
+	}
 	return x.applyFnAbstraction(st, call, f.T, sig, args)
+}
+
+// callCandidates: `f(args)` where the contract says f is one of a finite set of repository functions.
+// Results are shared fresh values; each candidate's contract applies under the guard f == fn(candidate).
+// Candidates must be `modifies nothing`.
+func (x *Exec) callCandidates(st *State, call *ast.CallExpr, fn Term, sig *types.Signature, args []Value, cands []string) []Value {
+	preSt := st.clone()
+	na := x.fresh("alloc", SInt)
+	st.assume(Cmp(">=", na, st.alloc), "alloc-monotone")
+	allocBefore := st.alloc
+	st.alloc = na
+	var results []Value
+	for i := 0; i < sig.Results().Len(); i++ {
+		rv := x.freshResult(st, sig.Results().At(i).Type(), fmt.Sprintf("cand_r%d", i), allocBefore)
+		if sv, ok := rv.(SliceV); ok {
+			all := true
+			for _, cn := range cands {
+				fo := x.eng.lookupFunc(x, nil, cn)
+				if fo == nil {
+					all = false
+					break
+				}
+				c := x.eng.contracts[x.eng.keyOf(fo)]
+				if c == nil || !zeroOffsetResults(c, resultNames(fo.Type().(*types.Signature)))[i] {
+					all = false
+				}
+			}
+			if all {
+				sv.Off = Int(0)
+				rv = sv
+			}
+		}
+		results = append(results, rv)
+	}
+	var guards []Term
+	for _, cn := range cands {
+		fo := x.eng.lookupFunc(x, nil, cn)
+		if fo == nil {
+			fail("calls clause: unknown function %s", cn)
+		}
+		key := x.eng.keyOf(fo)
+		c := x.eng.contracts[key]
+		if c == nil || !c.HasMod || len(c.Modifies) > 0 {
+			fail("calls clause: candidate %s needs a contract with `modifies nothing`", cn)
+		}
+		g := Eq(fn, x.eng.fnConst(fo))
+		guards = append(guards, g)
+		csig := fo.Type().(*types.Signature)
+		bind := map[string]Value{}
+		for i := 0; i < csig.Params().Len() && i < len(args); i++ {
+			bind[csig.Params().At(i).Name()] = args[i]
+		}
+		envPre := &SpecEnv{x: x, st: preSt, preSt: preSt, bind: bind, bindPre: bind, lets: c.Lets, calleePkg: c.Pkg, bound: map[string]Value{}}
+		for i, r := range c.Requires {
+			x.check(st, "pre", fmt.Sprintf("pre/%s#%d", cn, i+1), Implies(g, asTerm(x.evalSpec(envPre, r.E))), call.Pos(), r.Src)
+		}
+		envPost := &SpecEnv{x: x, st: st, preSt: preSt, bind: bind, bindPre: bind, lets: c.Lets, results: results, calleePkg: c.Pkg, bound: map[string]Value{}, resultNames: resultNames(csig), allocBase: &allocBefore}
+		for _, e := range c.Ensures {
+			st.assume(Implies(g, asTerm(x.evalSpec(envPost, e.E))), "ensures:"+cn)
+		}
+	}
+	x.check(st, "pre", "pre/candidates", Or(guards...), call.Pos(), "the function value is one of the declared candidates")
+	return results
 }
 
 // applyFnAbstraction models `f(args)` for an unknown function value f by uninterpreted application:
@@ -765,4 +840,41 @@ func (x *Exec) preserveFrameCall(st *State, key string, old, nh Term, rows Slice
 	r := Term{"fr!r", SInt}
 	st.assume(Implies(allFresh, Forall([]Term{r}, Implies(Cmp("<", r, x.alloc0), Eq(Select(nh, r), Select(old, r))), []Term{Select(nh, r)})), "call-frame")
 	st.assume(Forall([]Term{r}, Implies(And(Cmp("<", Int(0), r), Cmp("<", r, Int(100))), Eq(Select(nh, r), Select(old, r))), []Term{Select(nh, r)}), "call-frame:globals")
+}
+
+// zeroOffsetResults: result indexes k for which the contract ensures `off(rk) == 0` as a top-level conjunct.
+func zeroOffsetResults(c *FuncContract, names []string) map[int]bool {
+	out := map[int]bool{}
+	var walk func(e Expr)
+	walk = func(e Expr) {
+		switch b := e.(type) {
+		case *EBin:
+			if b.Op == "&&" {
+				walk(b.L)
+				walk(b.R)
+				return
+			}
+			if b.Op == "==" {
+				call, ok1 := b.L.(*ECall)
+				lit, ok2 := b.R.(*EInt)
+				if ok1 && ok2 && call.Fn == "off" && lit.V == "0" && len(call.Args) == 1 {
+					if id, ok := call.Args[0].(*EIdent); ok {
+						var k int
+						if _, err := fmt.Sscanf(id.Name, "r%d", &k); err == nil && fmt.Sprintf("r%d", k) == id.Name {
+							out[k] = true
+						}
+						for i, n := range names {
+							if n != "" && n == id.Name {
+								out[i] = true
+							}
+						}
+					}
+				}
+			}
+		}
+	}
+	for _, en := range c.Ensures {
+		walk(en.E)
+	}
+	return out
 }
